@@ -16,6 +16,7 @@ type scripted struct {
 	got    []byte
 	script []string
 	i      int
+	calls  int // failing calls within the current Write
 }
 
 func (s *scripted) Write(p []byte) (int, error) {
@@ -23,6 +24,17 @@ func (s *scripted) Write(p []byte) (int, error) {
 	if a == "ok" {
 		s.got = append(s.got, p...)
 		return len(p), nil
+	}
+	s.calls++
+	// "s<n>": the failure is io.ErrShortWrite, and should the writer above come back for more within the same
+	// Write (it has no business to: the first error ends the Write) it is told that the device is full.
+	var err error = errors.New("short")
+	if strings.HasPrefix(a, "s") {
+		a = a[1:]
+		err = io.ErrShortWrite
+		if s.calls > 1 {
+			return 0, errors.New("device full")
+		}
 	}
 	n, _ := strconv.Atoi(a)
 	k := n
@@ -33,7 +45,7 @@ func (s *scripted) Write(p []byte) (int, error) {
 		k = len(p)
 	}
 	s.got = append(s.got, p[:k]...)
-	return n, errors.New("short")
+	return n, err
 }
 
 // plainReader hides every optional interface of the reader it wraps (WriterTo in particular), so that io.Copy
@@ -72,7 +84,7 @@ func init() {
 		var rs []string
 		for i := 1; i+1 < len(t); i += 2 {
 			s.script = []string{t[i+1]}
-			s.i = 0
+			s.i, s.calls = 0, 0
 			mode, tok := splitMode(t[i])
 			buf := unhex(tok)
 			if buf == nil {
@@ -109,7 +121,7 @@ func init() {
 				w = upper
 			}
 			s.script = []string{t[i+2]}
-			s.i = 0
+			s.i, s.calls = 0, 0
 			mode, tok := splitMode(t[i+1])
 			buf := unhex(tok)
 			if buf == nil {
